@@ -29,6 +29,8 @@ partial def parseNode : List String → Option ((Bytes × Entry) × List String)
   | "DG" :: n :: rest => (bytesOfHexStr n).map fun n => ((n, .dangling), rest)
   | "FI" :: n :: rest => (bytesOfHexStr n).map fun n => ((n, .fifo), rest)
   | "SO" :: n :: rest => (bytesOfHexStr n).map fun n => ((n, .socket), rest)
+  | "XD" :: n :: rest => (bytesOfHexStr n).map fun n => ((n, .lockedDir), rest)
+  | "XL" :: n :: rest => (bytesOfHexStr n).map fun n => ((n, .lockedDir), rest)
   | _ => none
 
 structure Case where
